@@ -103,6 +103,17 @@ def path_to_dict(
     for key in keys:
         ordered[key] = data.get(key)
 
+    # The data must format back to the given path.
+    # (A template's regular expression accepts more than the template can produce, eg. any character for a literal ".")
+    try:
+        path_back = dict_to_path(ordered, template, config=config)
+    except SpilException as e:
+        debug(f'Path "{path}" does not format back: {e}')
+        return None, None
+    if path_back != Path(path):
+        debug(f'Path "{path}" does not conform: it formats back to "{path_back}"')
+        return None, None
+
     return template, ordered
 
 
